@@ -95,7 +95,8 @@ func init() {
 				}
 				return tuple{s.n, iface{}}
 			}
-			return prev(fr, args)
+			r := prev(fr, args)
+			return r
 		}
 	}
 }
